@@ -504,6 +504,15 @@ impl Drop for ExecClient {
     }
 }
 
+/// Two violation classes count as the same failure if they are equal, or if both belong to the
+/// memory-safety family (a crash by any signal, or a finding of the simulated heap): what memory
+/// corruption does to a process depends on the heap layout of the process it happens in (SIGSEGV in a
+/// long-running worker, SIGABRT from the allocator or a clean `heap/overflow` report in a fresh one).
+pub fn same_class(a: &str, b: &str) -> bool {
+    let mem = |c: &str| c.starts_with("crash/") || c.starts_with("heap/");
+    a == b || (mem(a) && mem(b))
+}
+
 /// Hypothesis-style minimisation of a choice list: delete chunks, zero entries, lower entries,
 /// accepting a candidate iff the same violation class recurs.
 pub fn minimise(ex: &mut ExecClient, start: &[u32], class: &str, max_execs: u64, max_secs: f64) -> Vec<u32> {
@@ -513,7 +522,7 @@ pub fn minimise(ex: &mut ExecClient, start: &[u32], class: &str, max_execs: u64,
     let budget_ok = |ex: &ExecClient| ex.executions < max_execs && t0.elapsed().as_secs_f64() < max_secs;
     let mut try_candidate = |ex: &mut ExecClient, cand: &[u32], best: &mut Vec<u32>| -> bool {
         let (c, eff) = ex.run(cand);
-        if c.as_deref() == Some(class.as_str()) {
+        if c.as_deref().map(|c| same_class(c, &class)).unwrap_or(false) {
             // prefer the effective list when it is not longer
             let newb = if !eff.is_empty() && eff.len() <= cand.len() { eff } else { cand.to_vec() };
             let better = newb.len() < best.len() || (newb.len() == best.len() && newb.iter().map(|&x| x as u64).sum::<u64>() < best.iter().map(|&x| x as u64).sum::<u64>());
@@ -601,7 +610,7 @@ pub fn minimise(ex: &mut ExecClient, start: &[u32], class: &str, max_execs: u64,
     }
     if cand.len() < best.len() {
         let (c, _) = ex.run(&cand);
-        if c.as_deref() == Some(class.as_str()) {
+        if c.as_deref().map(|c| same_class(c, &class)).unwrap_or(false) {
             best = cand;
         }
     }
